@@ -19,84 +19,23 @@ def run(cx, chk):
         "cache field under the lookup key; every other call of the wrapper is dominated by the miss edge; no other "
         "function touches the field; nothing evicts. Holds for all inputs of the analysed wrappers; the wrapper "
         "template is one per rule kind x directive set.")
-    ws = memo.cached_wrappers(cx)
+    from . import wrapsem
+    ws = wrapsem.cached(cx)
     n_memo = 0
+    names = {"key": "C06.key", "insert": "C06.insert", "lookup": "C06.lookup", "hit": "C06.hit", "own": "C06.keep", "shape": "C06.shape"}
     for w in ws:
-        tag = "%s/%s" % (w.inst.name, w.rule)
-        if not w.ok:
-            for p in w.problems:
-                chk.violation("C06.shape", "%s %s" % (tag, p), "cached wrapper not recognised: %s" % p)
+        tag = w.tag
+        if w.ok and w.leftrec:
             continue
-        if w.leftrec:
-            continue
-        n_memo += 1
-        b = w.body
-        # --- C06.key
-        ok, why = w.key_is_entry_state()
-        if ok:
-            chk.ok("C06.key", tag, {"wrapper": tag, "key": mir.show(w.key)})
-        else:
-            chk.violation("C06.key", tag, why, cx.site(b, w.get_bb))
-        # --- C06.insert
-        def is_insert(i, w=w, b=b):
-            t = b.blocks[i]["term"]
-            if t["k"] != "call":
-                return False
-            for (bi, tt) in w.inserts:
-                if bi == i:
-                    return strip(b.expr_op(tt["args"][1])) == w.key
-            return False
-        good, path = b.must_pass(w.miss, is_insert)
-        if good:
-            chk.ok("C06.insert", tag, {"wrapper": tag, "miss_bb": w.miss,
-                                        "inserts": [cx.site(b, i) for i, _ in w.inserts]})
-        else:
-            # identify how the path leaves: the last call on it
-            leave = [short(b.blocks[i]["term"]["func"]["path"]) for i in path
-                     if b.blocks[i]["term"]["k"] == "call" and not b.blocks[i]["term"]["func"].get("indirect")]
-            chk.violation(
-                "C06.insert", "%s exit-via=%s" % (tag, leave[-1] if leave else "?"),
-                "memoized wrapper parse_%s: a path from the cache-miss edge reaches `return` without inserting "
-                "the result (failures are not cached; the body is re-evaluated at this position)" % w.rule,
-                cx.site(b, path[-2] if len(path) > 1 else path[-1]),
-                {"path": memo.describe_path(b, path), "calls_on_path": leave})
-        # --- C06.lookup : everything except the lookup itself is on the miss side or the hit side
-        allowed_before = {"cache_key", "get"}
-        bad = []
-        for (obb, body, i, t) in w.flat.items:
-            f = t["func"]
-            nm = last(f["path"]) if not f.get("indirect") else "<indirect>"
-            if b.dominates(w.miss, obb) or b.dominates(w.hit, obb):
-                continue
-            if nm in allowed_before and obb in (0, w.get_bb) or (nm == "cache_key"):
-                continue
-            if nm == "get" and obb == w.get_bb:
-                continue
-            bad.append((obb, nm))
-        if bad:
-            for (obb, nm) in bad:
-                chk.violation("C06.lookup", "%s call=%s" % (tag, nm),
-                              "call to %s is evaluated before / regardless of the cache lookup" % nm,
-                              cx.site(b, obb))
-        else:
-            chk.ok("C06.lookup", tag)
-        # hit side: only clone + tracer
-        hit_blocks = b.reachable_from(w.hit)
-        miss_blocks = b.reachable_from(w.miss)
-        for (obb, body, i, t) in w.flat.items:
-            if obb in hit_blocks and obb not in miss_blocks:
-                nm = last(t["func"]["path"]) if not t["func"].get("indirect") else "<indirect>"
-                if nm not in ("clone", "print_informative"):
-                    chk.violation("C06.hit", "%s call=%s" % (tag, nm),
-                                  "cache-hit path calls %s (the hit path must only copy the stored result)" % nm,
-                                  cx.site(b, obb))
-        chk.ok("C06.hit", tag)
-        # --- C06.keep / own
-        for (i, t) in w.other_cache_calls:
-            nm = short(t["func"]["path"]) if not t["func"].get("indirect") else "<indirect>"
-            chk.violation("C06.keep", "%s call=%s" % (tag, nm),
-                          "cache field %s is passed to %s (only get/insert may touch it)" % (w.field, nm),
-                          cx.site(b, i))
+        if w.ok:
+            n_memo += 1
+        mine = [v for v in w.viol if v[0] in names]
+        for (rid, detail, msg, site) in mine:
+            chk.violation(names[rid], ("%s %s" % (tag, detail)).strip(), msg, site)
+        if w.ok:
+            for rid in ("key", "insert", "lookup", "hit"):
+                if not any(v[0] == rid for v in mine):
+                    chk.ok(names[rid], tag, {"wrapper": tag, "paths": len(w.leaves)})
     # cache fields are touched only inside their own wrapper
     for inst in cx.instances():
         fields = memo.cache_fields(inst)
@@ -105,7 +44,7 @@ def run(cx, chk):
         owners = {}
         for w in ws:
             if w.inst is inst and w.ok:
-                owners[w.field] = w.body.path
+                owners[w.field] = w.path
         for p, f in inst.fns.items():
             if "mir" not in f:
                 continue
@@ -115,7 +54,8 @@ def run(cx, chk):
                     if st["k"] != "assign":
                         continue
                     fld = memo.mentions_cache_field(body.expr_rv(st["rv"]))
-                    if fld and owners.get(fld) != p and "ParseCache" not in p:
+                    own = owners.get(fld) if fld else None
+                    if fld and not (own is not None and (p == own or p.startswith(own + "::"))) and "ParseCache" not in p:
                         chk.violation("C06.keep", "%s field=%s fn=%s" % (inst.name, fld, mir.short(p)),
                                       "cache field %s accessed outside its wrapper" % fld, cx.site(body, i))
         chk.ok("C06.keep", inst.name, {"instance": inst.name, "fields": fields})
